@@ -47,7 +47,8 @@ DEFAULT_FLAGS = dict(
     int_dbl_ctx=False,      # ** / abs / min / max / sign allowed inside integer division, mod and subscripts
     int_cast=False,         # int(x)
     mod_in_product=False,   # integer mod(..) as right operand of *
-    real_mod=True, real_pow=True, sign=True,
+    member_in_mod=False,    # integer mod(..) with a derived-type member among its operands
+    real_mod=True, real_pow=True, sign=True, sign_boost=False,
     default_real_lit=False,  # un-suffixed real literals (default kind)
     d_exponent_lit=False,   # 1.5d0
     logical_arrays=True,
@@ -153,7 +154,6 @@ class TPGen:
         v = rng.choice(['0.5', '1.5', '2.0', '0.25', '3.0', '1.0', '0.125', '0.1', '2.7', '0.3', '1.25'])
         if self.f['default_real_lit'] and self.chance(0.6):
             self.feat('default_real_literal')
-            self.tainted_lit = True
             t = v
         elif self.f['d_exponent_lit'] and self.kbytes(kind) == 8 and self.chance(0.5):
             self.feat('d_exponent_literal')
@@ -296,8 +296,10 @@ class TPGen:
                 d, bd = self.ilit(True)
             if f['int_dbl_ctx'] and ('**' in a or 'abs(' in a or 'max(' in a or 'min(' in a or 'sign(' in a):
                 self.feat('double_valued_int_operand_of_div_or_mod')
-            if op == 'div':
+            if op == 'div' or (_has_member(a + d) and not f['member_in_mod']):
                 return f'{_par(a)} / {d}', ba
+            if _has_member(a + d):
+                self.feat('int_mod_of_derived_member')
             return f'mod({a}, {d})', ba
         if op == 'pow':
             self.feat('int_pow')
@@ -306,7 +308,7 @@ class TPGen:
                 return a, ba
             return f'{_atom(a)}**{e}', ba ** e
         if op == 'intr':
-            fn = rng.choice(['max', 'min', 'abs', 'sign'] if f['sign'] else ['max', 'min', 'abs'])
+            fn = rng.choice(['max', 'min', 'abs'] + (['sign'] * (5 if f['sign_boost'] else 1) if f['sign'] else []))
             self.feat(f'int_{fn}')
             if fn == 'abs':
                 return f'abs({a})', ba
@@ -365,7 +367,7 @@ class TPGen:
             self.feat('real_cast')
             i, bi = self.int_expr(depth - 1)
             if bi > REAL_CAP:
-                if self.f['int_mod'] and not _has_dbl(i):
+                if self.f['int_mod'] and not _has_dbl(i) and not _has_member(i):
                     i, bi = f'mod({i}, 16)', 16
                 else:
                     i, bi = self.ilit()
@@ -397,7 +399,7 @@ class TPGen:
         if op == 'intr':
             fns = ['sqrt', 'exp', 'abs', 'min', 'max', 'min', 'max']
             if f['sign']:
-                fns.append('sign')
+                fns += ['sign'] * (6 if f['sign_boost'] else 1)
             fn = rng.choice(fns)
             self.feat(f'real_{fn}')
             if fn == 'sqrt':
@@ -452,7 +454,8 @@ class TPGen:
         """wrap expression so that the stored value respects the variable's bound"""
         if v.typ == 'int':
             if bound > v.bound:
-                if self.f['int_mod'] and (self.f['int_dbl_ctx'] or not _has_dbl(text)):
+                if self.f['int_mod'] and (self.f['int_dbl_ctx'] or not _has_dbl(text)) \
+                        and (self.f['member_in_mod'] or not _has_member(text)):
                     self.feat('int_mod')
                     return f'mod({text}, {int(v.bound) - 1})'
                 p = int(v.bound) - 1
@@ -651,6 +654,8 @@ class TPGen:
     def stmt_select(self, ind, depth):
         self.feat('select_case')
         sel, _ = self.int_expr(1, exact=True)
+        if _has_member(sel) and not self.f['member_in_mod']:
+            sel = 'k1'
         lines = [f'{ind}select case (mod({sel}, 5))']
         for c in self.rng.sample(['(0)', '(1, 2)', '(-2:-1)', '(3:4)', '(-4, -3)'], self.rng.randint(1, 3)):
             lines.append(f'{ind}case {c}')
@@ -1027,6 +1032,10 @@ class TPGen:
                   f"      write(*,'(A,1X,{fmt})') nm // ' {tag}', x(q)", '    end do', f'  end subroutine p{tag}']
         L.append('end program drv\n')
         return '\n'.join(L), outputs
+
+
+def _has_member(t):
+    return 't%' in t or 'as_ia' in t or 'as_rc' in t
 
 
 def _has_dbl(t):
